@@ -22,11 +22,31 @@ def check_inherits(repo, cls, base, methods):
     return out
 
 
+def _plain_name_expr(e):
+    """an expression that denotes a single file name (no separator): a constant without '/', or an f-string built from
+    such constants, `<path>.name` attributes and os.getpid()"""
+    if isinstance(e, ast.Constant):
+        return isinstance(e.value, str) and "/" not in e.value and e.value not in ("", ".", "..")
+    if isinstance(e, ast.JoinedStr):
+        for v in e.values:
+            if isinstance(v, ast.Constant):
+                if "/" in str(v.value):
+                    return False
+            elif isinstance(v, ast.FormattedValue):
+                x = v.value
+                if not ((isinstance(x, ast.Attribute) and x.attr == "name") or
+                        (isinstance(x, ast.Call) and isinstance(x.func, ast.Attribute) and x.func.attr == "getpid")):
+                    return False
+        return True
+    return False
+
+
 class _Origin(ast.NodeVisitor):
-    def __init__(self, sources, selfname):
+    def __init__(self, sources, selfname, helpers=(), ok_params=()):
         self.sources = sources
         self.selfname = selfname
-        self.ok_names = set()
+        self.helpers = set(helpers)
+        self.ok_names = set(ok_params)
         self.sites = []
 
     def is_ok(self, e):
@@ -39,6 +59,10 @@ class _Origin(ast.NodeVisitor):
             return True
         if isinstance(e, ast.BinOp) and isinstance(e.op, ast.Div) and self.is_ok(e.left) and isinstance(e.right, ast.Attribute) \
                 and isinstance(e.right.value, ast.Name) and e.right.value.id == self.selfname and e.right.attr == "METADATA":
+            return True
+        if isinstance(e, ast.BinOp) and isinstance(e.op, ast.Div) and self.is_ok(e.left) and _plain_name_expr(e.right):
+            return True
+        if isinstance(e, ast.IfExp) and self.is_ok(e.body) and self.is_ok(e.orelse):
             return True
         return False
 
@@ -65,10 +89,13 @@ class _Origin(ast.NodeVisitor):
             self.sites.append((f.attr, node.lineno, self.is_ok(recv), ast.unparse(recv)))
         elif isinstance(f, ast.Name) and f.id in PRIM_FUNCS and node.args:
             self.sites.append((f.id, node.lineno, self.is_ok(node.args[0]), ast.unparse(node.args[0])))
+        elif isinstance(f, ast.Attribute) and f.attr in self.helpers and isinstance(f.value, ast.Name) and f.value.id == self.selfname and node.args:
+            # a helper that takes a path: its argument is checked here, its body is checked with the parameter trusted
+            self.sites.append((f.attr, node.lineno, self.is_ok(node.args[0]), ast.unparse(node.args[0])))
         self.generic_visit(node)
 
 
-def check_origin(repo, cls, sources, skip=()):
+def check_origin(repo, cls, sources, skip=(), helpers=()):
     out = []
     c = repo.cls(cls)
     if c is None:
@@ -76,7 +103,8 @@ def check_origin(repo, cls, sources, skip=()):
     for mname, fdef in sorted(c.methods.items()):
         if mname in sources or mname in skip or not fdef.args.args:
             continue
-        v = _Origin(set(sources), fdef.args.args[0].arg)
+        okp = [fdef.args.args[1].arg] if mname in helpers and len(fdef.args.args) > 1 else []
+        v = _Origin(set(sources), fdef.args.args[0].arg, helpers=helpers, ok_params=okp)
         v.visit(fdef)
         counts = {}
         for prim, line, ok, txt in v.sites:
@@ -88,10 +116,117 @@ def check_origin(repo, cls, sources, skip=()):
     return out
 
 
+def _is_write_open(call):
+    if isinstance(call.func, ast.Name) and call.func.id == "open":
+        mode = None
+        if len(call.args) > 1 and isinstance(call.args[1], ast.Constant):
+            mode = call.args[1].value
+        for k in call.keywords:
+            if k.arg == "mode" and isinstance(k.value, ast.Constant):
+                mode = k.value.value
+        return isinstance(mode, str) and any(c in mode for c in "wax+")
+    return False
+
+
+def check_atomic_helper(repo, cls, meth):
+    """The helper writes the bytes to a *different* (temporary) path and renames it onto the target:
+    the only write-mode open()/write_bytes goes to a local name that is not the `path` parameter, and an
+    os.replace(tmp, path) / tmp.replace(path) onto the parameter follows it."""
+    c = repo.cls(cls)
+    name = "%s.%s.%s#trace:writes-a-temporary-file-then-renames-it-onto-the-target" % (c.module.name if c else "?", cls, meth)
+    ok, why = False, "method not found"
+    fdef = c.methods.get(meth) if c else None
+    if fdef is not None and len(fdef.args.args) >= 2:
+        target = fdef.args.args[1].arg
+        writes, renames = [], []
+        for n in ast.walk(fdef):
+            if isinstance(n, ast.Call):
+                if _is_write_open(n) and n.args:
+                    writes.append((n.lineno, ast.unparse(n.args[0])))
+                if isinstance(n.func, ast.Attribute) and n.func.attr in ("write_bytes", "write_text"):
+                    writes.append((n.lineno, ast.unparse(n.func.value)))
+                if isinstance(n.func, ast.Attribute) and n.func.attr == "replace" and n.args:
+                    if isinstance(n.func.value, ast.Name) and n.func.value.id == "os" and len(n.args) == 2:
+                        renames.append((n.lineno, ast.unparse(n.args[0]), ast.unparse(n.args[1])))
+                    elif not (isinstance(n.func.value, ast.Name) and n.func.value.id == "os"):
+                        renames.append((n.lineno, ast.unparse(n.func.value), ast.unparse(n.args[0])))
+        bad = [w for w in writes if w[1] == target]
+        good = [r for r in renames if r[2] == target and any(w[1] == r[1] and w[0] < r[0] for w in writes)]
+        ok = bool(writes) and not bad and bool(good)
+        why = "writes=%r renames=%r target=%r" % (writes, renames, target)
+    return [dict(name=name, kind="trace", result="discharged" if ok else "undischarged", backend="static", seconds=0.0,
+                 reason=None if ok else "not a write-temporary-then-rename helper: " + why)]
+
+
+def check_no_inplace(repo, cls, methods, helper):
+    """In the listed methods every write of file content goes through the atomic helper."""
+    out = []
+    c = repo.cls(cls)
+    for m in methods:
+        fdef = c.methods.get(m) if c else None
+        name = "%s.%s.%s#trace:file-content-is-written-only-through-%s" % (c.module.name if c else "?", cls, m, helper)
+        if fdef is None:
+            out.append(dict(name=name, kind="trace", result="undischarged", backend="static", seconds=0.0, reason="method not found"))
+            continue
+        bad, uses = [], 0
+        for n in ast.walk(fdef):
+            if isinstance(n, ast.Call):
+                if _is_write_open(n):
+                    bad.append("open(.., write mode) at line %d" % n.lineno)
+                if isinstance(n.func, ast.Attribute) and n.func.attr in ("write_bytes", "write_text", "dump"):
+                    bad.append("%s at line %d" % (n.func.attr, n.lineno))
+                if isinstance(n.func, ast.Attribute) and n.func.attr == helper:
+                    uses += 1
+        ok = not bad
+        out.append(dict(name=name, kind="trace", result="discharged" if ok else "undischarged", backend="static", seconds=0.0,
+                        reason=None if ok else "in-place write: " + "; ".join(bad)))
+    return out
+
+
+def check_call_order(repo, cls, meth, first, then):
+    """On every path of the method, every call of `then` is preceded by a call of `first` (syntactic dominance:
+    `first` occurs earlier in the same or an enclosing statement list and is not inside a conditional that excludes `then`)."""
+    c = repo.cls(cls)
+    name = "%s.%s.%s#trace:%s-before-%s" % (c.module.name if c else "?", cls, meth, first, then)
+    fdef = c.methods.get(meth) if c else None
+    ok, why = False, "method not found"
+    if fdef is not None:
+        def calls(node, attr):
+            return [n for n in ast.walk(node) if isinstance(n, ast.Call) and isinstance(n.func, ast.Attribute) and n.func.attr == attr]
+
+        def dominated(stmts, seen):
+            okk = True
+            for s in stmts:
+                if isinstance(s, (ast.If, ast.Try, ast.With, ast.For, ast.While)):
+                    blocks = [getattr(s, f, []) for f in ("body", "orelse", "finalbody")] + [h.body for h in getattr(s, "handlers", [])]
+                    here = [n for f in ("test", "iter", "items") for n in ([getattr(s, f)] if hasattr(s, f) and not isinstance(getattr(s, f), list) else [])]
+                    for h in here:
+                        if calls(h, then) and not seen:
+                            okk = False
+                    for b in blocks:
+                        if b and not dominated(b, seen):
+                            okk = False
+                else:
+                    if calls(s, then) and not seen and not (calls(s, first)):
+                        okk = False
+                    if calls(s, first):
+                        seen = True
+            return okk
+        ok = bool(calls(fdef, then)) and bool(calls(fdef, first)) and dominated(fdef.body, False)
+        why = "%s is reachable without a preceding %s" % (then, first)
+    return [dict(name=name, kind="trace", result="discharged" if ok else "undischarged", backend="static", seconds=0.0, reason=None if ok else why)]
+
+
 def run_static(repo, spec):
     kind = spec[0]
     if kind == "inherits":
         return check_inherits(repo, spec[1], spec[2], spec[3])
     if kind == "origin":
-        return check_origin(repo, spec[1], spec[2], spec[3] if len(spec) > 3 else ())
+        return check_origin(repo, spec[1], spec[2], spec[3] if len(spec) > 3 else (), spec[4] if len(spec) > 4 else ())
+    if kind == "atomic":
+        return check_atomic_helper(repo, spec[1], spec[2])
+    if kind == "no-inplace":
+        return check_no_inplace(repo, spec[1], spec[2], spec[3])
+    if kind == "order":
+        return check_call_order(repo, spec[1], spec[2], spec[3], spec[4])
     raise ValueError(kind)
